@@ -112,6 +112,10 @@ func toYAML(v interface{}, indent string) string {
 		sort.Strings(keys)
 		var b strings.Builder
 		for _, k := range keys {
+			if l, ok := x[k].([]interface{}); ok && len(l) == 0 {
+				fmt.Fprintf(&b, "%s%s: []\n", indent, k) // an explicitly empty list
+				continue
+			}
 			switch x[k].(type) {
 			case map[string]interface{}, []interface{}:
 				fmt.Fprintf(&b, "%s%s:\n%s", indent, k, toYAML(x[k], indent+"  "))
@@ -374,5 +378,79 @@ func TestC19(t *testing.T) {
 			}
 		}
 	}
-	rep.Bound = "JSON and YAML documents with 2-3 sources: each of 23 source options (incl. target.*) varied individually in the 2nd source over {absent, a second value; booleans: absent, true, false} against a 1st source with all options absent / all present and the remaining options of the 2nd source all absent / all present, a 3rd source with nothing but a name; each of 7 tag options likewise in a 2nd tag against the default tag, the tag list inherited by a 2nd source; oracle: explicit value if given, else the preceding source's / default tag's effective value; parse -> json.Marshal -> parse yields the same effective options"
+	// ---- an explicitly empty tag / rename list is a value of its own: it is not inherited over
+	for _, format := range []string{"json", "yaml"} {
+		n++
+		if !vh.Mine(n) {
+			continue
+		}
+		s0 := map[string]interface{}{"name": "s0", "out-dir": "/o", "log-dir": "/l", "target": map[string]interface{}{"name": "t", "http-host": "h:1"},
+			"tags":   []interface{}{map[string]interface{}{"pattern": "DEFAULT", "delete": "true"}, map[string]interface{}{"pattern": "^keep/", "delete": "false"}},
+			"rename": []interface{}{map[string]interface{}{"from": "^a", "to": "b"}}}
+		s1 := map[string]interface{}{"name": "s1"}
+		s2 := map[string]interface{}{"name": "s2", "tags": []interface{}{}, "rename": []interface{}{}}
+		doc := c19Doc{Sources: []map[string]interface{}{s0, s1, s2}, Format: format}
+		rep.Executions++
+		rep.States++
+		rep.Transitions += 2
+		rep.Nontrivial++
+		conf, text, err := c19Parse(doc)
+		if err != nil {
+			rep.Violate("", "explicit empty lists: the document does not parse: "+err.Error()+"\n"+text, doc)
+			continue
+		}
+		lists := func(c *ClientConf) string {
+			var out []string
+			for _, s := range c.Sources {
+				var pats []string
+				for _, t := range s.Tags {
+					p := "DEFAULT"
+					if t.Pattern != nil {
+						p = t.Pattern.String()
+					}
+					pats = append(pats, fmt.Sprintf("%s/delete=%v", p, t.Delete))
+				}
+				out = append(out, fmt.Sprintf("%s tags=%v renames=%d", s.Name, pats, len(s.Rename)))
+			}
+			return strings.Join(out, "; ")
+		}
+		check := func(c *ClientConf, when string) bool {
+			if len(c.Sources) != 3 {
+				rep.Violate("", fmt.Sprintf("explicit empty lists (%s, %s): %d sources", format, when, len(c.Sources)), doc)
+				return false
+			}
+			if len(c.Sources[1].Tags) != 2 || len(c.Sources[1].Rename) != 1 {
+				rep.Violate("", fmt.Sprintf("explicit empty lists (%s, %s): the source that omits tags and rename does not inherit them: %s", format, when, lists(c)), doc)
+				return false
+			}
+			for _, t := range c.Sources[2].Tags {
+				if t.Pattern != nil || t.Delete {
+					rep.Violate("", fmt.Sprintf("explicit empty lists (%s, %s): source s2 says `tags: []`, yet it carries the preceding source's tags: %s", format, when, lists(c)), doc)
+					return false
+				}
+			}
+			if len(c.Sources[2].Rename) != 0 {
+				rep.Violate("", fmt.Sprintf("explicit empty lists (%s, %s): source s2 says `rename: []`, yet it carries the preceding source's rename rules: %s", format, when, lists(c)), doc)
+				return false
+			}
+			return true
+		}
+		if !check(conf, "parsed") {
+			continue
+		}
+		b, err := json.Marshal(conf)
+		if err != nil {
+			rep.Violate("", "explicit empty lists: json.Marshal failed: "+err.Error(), doc)
+			continue
+		}
+		conf2 := &ClientConf{}
+		if err := json.Unmarshal(b, conf2); err != nil {
+			rep.Violate("", "explicit empty lists: the re-encoded configuration does not parse: "+err.Error(), doc)
+			continue
+		}
+		if check(conf2, "re-encoded") {
+			rep.Outcome("ok explicit empty lists " + format)
+		}
+	}
+	rep.Bound = "an explicitly empty tags / rename list in a third source (not inherited over, also after re-encoding); JSON and YAML documents with 2-3 sources: each of 23 source options (incl. target.*) varied individually in the 2nd source over {absent, a second value; booleans: absent, true, false} against a 1st source with all options absent / all present and the remaining options of the 2nd source all absent / all present, a 3rd source with nothing but a name; each of 7 tag options likewise in a 2nd tag against the default tag, the tag list inherited by a 2nd source; oracle: explicit value if given, else the preceding source's / default tag's effective value; parse -> json.Marshal -> parse yields the same effective options"
 }
